@@ -23,7 +23,7 @@ THEOREMS = [
     "btdt_to_dt_floor", "dt_to_btdt_floor", "btdt_to_ht_floor", "ht_to_btdt_nearest", "btdt_ht_btdt",
     "dt_ht_dt_abs", "ht_to_dt_abs_trunc", "ht_to_dt_abs_in_range", "tz_rules",
     "round_error", "round_int", "to_ticks_float_unfold", "float_to_ticks_nearest", "float_to_ticks_exact",
-            "gen_convert_timedelta_error", "gen_convert_same_type", "gen_convert_round_trips"]
+            "gen_convert_timedelta_error", "gen_convert_same_type", "gen_convert_round_trips", "gen_convert_datetime_error"]
 RULE = ("source values of each family from edge lattices (decimal boundaries of a 2^64 fraction ±2, just below whole "
         "seconds, negatives, range edges of datetime/timedelta/hightime) plus seeded random values, through all nine "
         "source->destination pairs for timedeltas and datetimes on the real code (oracle with exact Fractions) and "
